@@ -85,6 +85,9 @@ def uniform_fill(
         A binary mask with the specified number of 1s placed in a uniform random manner.
     """
     prob = mask.flatten().numpy()
+    if nonzero_mask_count == 0 or prob.sum() == 0:
+        # Nothing (left) to sample from.
+        return torch.zeros_like(mask, dtype=mask.dtype)
     ind_flattened = rng.choice(
         torch.arange(nrow * ncol),
         size=nonzero_mask_count,
